@@ -1,0 +1,29 @@
+//go:build verif
+
+// Contracts for the gosk command, read by /verif/govc. Not part of a normal build.
+
+package main
+
+import (
+	"flag"
+	"os"
+)
+
+// specStatOK: the source file exists (os.Stat succeeds).
+func specStatOK(path string) bool {
+	_, err := os.Stat(path)
+	return err == nil
+}
+
+//@ func main
+//@ props C19 C07
+//@ option noreturn
+//@ exits[codes@C19]  vcExitCode() == 0 || vcExitCode() == 16 || vcExitCode() == 17 || vcExitCode() == -1
+//@ exits[usage@C19]  len(flag.Args()) < 2 ==> vcExitCode() == 16 || vcExitCode() == 0
+//@ exits[source@C19] len(flag.Args()) >= 2 && !specStatOK(flag.Args()[0]) ==> vcExitCode() == 17 || vcExitCode() == 0
+//@ exits[report@C19] vcExitCode() != 0 ==> vcPrinted()
+//@ calls[errhdr@C07] colog.AddHeader : (arg0 == "Error: " || arg0 == "Error ") && arg1 == colog.LError
+//@ calls[once@C19]   frontend.Exec : len(flag.Args()) >= 2 && arg1 == flag.Args()[1]
+//@ assigns *
+
+var _ = flag.Args
